@@ -159,14 +159,31 @@ class Sim:
     def op_add(self, op):
         res = self.res[op['res']]
         route = op.get('route', 'xml')
-        path, _ = self.materialise(res, route, op.get('quote', '"'), style=op.get('style'))
+        path, data = self.materialise(res, route, op.get('quote', '"'), style=op.get('style'))
+        f6 = op.get('fault') if (op.get('fault') or {}).get('kind') == 'F6' else None
+        if f6:
+            # torn / short write of the file being added: the tail is missing
+            cut = max(1, min(len(data) - 2, int(len(data) * f6['cut'])))
+            with open(path, 'wb') as fh:
+                fh.write(data[:cut])
         self._knobs(op)
         W = self.W
         W.begin_op(budget=self.budget, record=bool(op.get('record')))
-        self._arm(op.get('fault'))
+        self._arm(None if f6 else op.get('fault'))
         _, exc = self.call(self.raw_add, path, route)
         counters = dict(W.counters)
         fired = W.end_op()
+        if f6:
+            # a torn file must be rejected - unless add() had nothing to add from it anyway
+            if exc is not None or not self.m.plan_add(res['lexicons']):
+                fired = fired + ['F6-torn-input-file']
+            else:
+                got = sorted(lx.specifier() for lx in wn.lexicons())
+                if got != sorted(self.m.installed):
+                    raise self.violation('torn-file-accepted', 'add() of a truncated file '
+                                         'reported success and changed the database',
+                                         {'op': op, 'installed': got})
+                fired = fired + ['F6-torn-input-file']
         W.set_batch(1000)
         W.short_reads = False
         todo = self.m.plan_add(res['lexicons'])
@@ -176,7 +193,7 @@ class Sim:
         if fired:
             # a faulted op is a no-op for the model; the C06 oracles decide the rest
             self.last['faulted'] = True
-            if exc is None and todo:
+            if exc is None and todo and not f6:
                 raise self.violation('fault-swallowed', 'add reported success although a fault '
                                      'was injected', {'fired': fired, 'op': op})
             W.log(step=self.step, outcome='fault', exc=type(exc).__name__ if exc else None)
@@ -252,7 +269,45 @@ class Sim:
         self.check_fresh()
 
     # -- oracles -----------------------------------------------------------------------------
+    def reconcile(self, op, last):
+        """After a faulted op the model is a no-op - or, for the per-lexicon transactions of
+        a multi-match removal, the prefix state the observation shows."""
+        F_CLOSE = 'C06-handler-close-raises-after-commit'
+        got = sorted(lx.specifier() for lx in wn.lexicons())
+        if got == sorted(self.m.installed):
+            return
+        m2 = self.m.copy()
+        if op['op'] == 'remove':
+            matched = m2.select(op['spec'])
+            for j in range(len(matched)):
+                m2.remove_specs(matched[j:j + 1])
+                if sorted(m2.installed) == got and j < len(matched) - 1:
+                    self.m = m2
+                    self.probe('faulted-remove-prefix-state')
+                    return
+        m3 = self.m.copy()
+        if op['op'] == 'add':
+            m3.add_resource(self.res[op['res']]['lexicons'])
+        elif op['op'] == 'remove':
+            m3.remove_specs(m3.select(op['spec']))
+        if (sorted(m3.installed) == got and last['fired'] == ['F1-handler-close']
+                and F_CLOSE in compare.ENABLED_FINDINGS):
+            compare.note_known(F_CLOSE)
+            self.m = m3
+            return
+        raise self.violation('durable-state', 'failed %s changed the installed set' % op['op'],
+                             {'op': op, 'fired': last['fired'], 'observed': got,
+                              'expected': sorted(self.m.installed)}, tags=['partial'])
+
     def after_op(self, op):
+        last = getattr(self, 'last', None) or {}
+        if last.get('faulted'):
+            self.reconcile(op, last)
+            self.last = {}
+            conn = wn._db.pool.get(wn.config.database_path)
+            if conn is not None and conn.in_transaction:
+                raise self.violation('open-transaction', 'pooled connection left inside a '
+                                     'transaction after a failed %s' % op['op'], {'op': op})
         st = observe.digest([self.m.installed, sorted(self.m.ilis)])
         self.stats['states'].add(st)
         if os.environ.get('VERIF_DIGEST_STATE') == '1':
@@ -273,6 +328,30 @@ class Sim:
         if got != sorted(self.m.installed):
             raise self.violation('installed', 'installed set differs from the model',
                                  {'observed': got, 'expected': sorted(self.m.installed)})
+        self.check_lookups()
+
+    def check_lookups(self):
+        """Lookup values exist exactly for what was ever installed (they are never deleted):
+        nothing leaks from skipped lexicons or rolled-back adds."""
+        import os
+        if not os.path.exists(self.W.dbpath()):
+            return
+        conn = observe.observer(self.W.dbpath())
+        try:
+            rt = sorted(r[0] for r in conn.execute('SELECT type FROM relation_types'))
+            lf = sorted(r[0] for r in conn.execute('SELECT name FROM lexfiles'))
+        except Exception:
+            return
+        finally:
+            conn.close()
+        if rt != sorted(self.m.reltypes) or lf != sorted(self.m.lexfiles):
+            raise self.violation(
+                'lookup-tables', 'lookup tables hold values of lexicons that were never '
+                'installed (or miss values of installed ones)',
+                {'relation_types_extra': sorted(set(rt) - self.m.reltypes),
+                 'relation_types_missing': sorted(self.m.reltypes - set(rt)),
+                 'lexfiles_extra': sorted(set(lf) - self.m.lexfiles),
+                 'lexfiles_missing': sorted(self.m.lexfiles - set(lf))})
 
     def families(self):
         return [[sp] + self.m.extensions_of(sp) for sp in self.m.installed
